@@ -904,7 +904,13 @@ func registerElection(e *Engine) {
 			}
 			in.sch.yield("elector:acquired")
 			ctxv, _ := in.newCtx(nil)
-			in.call(fr, 0, cb[0], []value{ctxv})
+			if in.sch.explore {
+				// client-go starts the callback in a goroutine of its own and goes on to the first
+				// renewal at once: under schedule exploration the two interleave
+				in.spawnNamed("", "elector:OnStartedLeading", cb[0], []value{ctxv})
+			} else {
+				in.call(fr, 0, cb[0], []value{ctxv})
+			}
 			// the renew loop starts with an immediate pass (wait.PollImmediateUntil): one more Get
 			// and Update by the new leader right after it has acquired the lock
 			in.sch.yield("elector:renew")
